@@ -270,6 +270,12 @@ def c15(tier, replay):
                                        "--random-strings", 2000 if quick else 50000])
         run.cov["inputs"] = summ
         inputs = json.load(open(os.path.join(d, "cli_inputs.json")))
+        # long rejected inputs with multi-byte characters at every alignment (an error message that quotes or shortens the
+        # input must not cut a character in half), also behind a FEN-like prefix
+        for ch in ("\u00e9", "\u20ac", "\U0001d11e", "\u2013"):
+            for pad in range(4):
+                inputs.append({"kind": "fuzz", "input": "a" * pad + ch * 45})
+                inputs.append({"kind": "fuzz", "input": "rnbqkbnr/pppppppp/8/8/8/8/PPPPPPPP/RNBQKBNR w KQkq " + "x" * pad + ch * 12 + " 0 1"})
         n = cli_events(vcommon.build_binary(False), inputs, os.path.join(d, "rules%02d.ndjson" % (vcommon.NCPU - 1)))
         run.cov["cli_runs"] = n
     files = sorted(glob.glob(os.path.join(d, "rules*.ndjson")))
